@@ -556,7 +556,10 @@ class Master(loader.Loader):
         # Remove will trigger rescheduling which will be harmless but
         # strictly speaking unnecessary.
         for appname, app in self.cell.apps.items():
-            if app.schedule_once and app.evicted:
+            # The evicted flag is not cleared when a placement is put back
+            # (server reload, failed renewal): only apps that actually lost
+            # their placement are removed.
+            if app.schedule_once and app.evicted and not app.server:
                 _LOGGER.info('Removing schedule_once/evicted app: %s',
                              appname)
                 # TODO: unfortunately app.server is already None at this point.
